@@ -837,6 +837,12 @@ impl MockCluster {
         st.nodes[node].spec.shards = shards;
         st.nodes[node].rr_shard = 0;
     }
+    /// Serve another datacenter / rack for the node in system.local / system.peers from now on.
+    pub fn set_location(&self, node: usize, dc: &str, rack: &str) {
+        let mut st = self.lock();
+        st.nodes[node].spec.dc = dc.into();
+        st.nodes[node].spec.rack = rack.into();
+    }
     pub fn set_tokens(&self, node: usize, tokens: Vec<i64>) {
         self.lock().nodes[node].spec.tokens = tokens;
     }
